@@ -2,9 +2,10 @@
 //   lg64 v | lg32 v               Log2
 //   sq L i | cn L i               GetSegItemIndexes(i) -> seg item, GetIndex(seg,item), GetItemCount(seg)
 //   sqs L i                       GetSegItemIndexes only (indexes outside the proved range; no UB there)
-//   sqr L lo n | cnr L lo n       the same four values for every index lo..lo+n-1 on one line
+//   sqr L lo n | cnr L lo n       the same four values for every index lo..lo+n-1, run-length encoded on one line
 //   sqx L s j | cnx L s j         GetIndex(s,j) then GetSegItemIndexes of it
 //   hist F L op...                grow/shrink history on momo::SegmentedArray<Elem,...,Settings<F,L>> (F = sq|cn)
+//   hist2 F L op...               two arrays: A.<op> B.<op> mAB MAB xAB cAB kAB (move / swap / copy between them)
 #include "private_access.h"
 #include "momo/SegmentedArray.h"
 using namespace momo;
@@ -31,27 +32,48 @@ struct TrackMM
 	}
 };
 
-// element that knows where it was constructed: a bitwise relocation is detected
+// element that knows where it was constructed: a bitwise relocation is detected; every construction, assignment
+// (target) and destruction is logged with its address so that "which slots did this operation touch" is observable
+struct Elem;
+static std::vector<std::pair<char, const Elem*>> g_ev;
 struct Elem
 {
 	ull v; const Elem* self;
-	Elem() : v(0), self(this) {}
-	explicit Elem(ull x) : v(x), self(this) {}
-	Elem(const Elem& o) : v(o.v), self(this) {}
-	Elem(Elem&& o) noexcept : v(o.v), self(this) {}
-	Elem& operator=(const Elem& o) { v = o.v; return *this; }
-	Elem& operator=(Elem&& o) noexcept { v = o.v; return *this; }
-	~Elem() { self = nullptr; }
+	Elem() : v(0), self(this) { g_ev.push_back({'c', this}); }
+	explicit Elem(ull x) : v(x), self(this) { g_ev.push_back({'c', this}); }
+	Elem(const Elem& o) : v(o.v), self(this) { g_ev.push_back({'c', this}); }
+	Elem(Elem&& o) noexcept : v(o.v), self(this) { g_ev.push_back({'c', this}); }
+	Elem& operator=(const Elem& o) { v = o.v; g_ev.push_back({'a', this}); return *this; }
+	Elem& operator=(Elem&& o) noexcept { v = o.v; g_ev.push_back({'a', this}); return *this; }
+	~Elem() { self = nullptr; g_ev.push_back({'d', this}); }
 };
 
 template<Fn F, size_t L> struct Idx
 {
 	typedef SegmentedArraySettings<F, L> S;
+	static void vals(size_t i, size_t& s, size_t& j, size_t& idx, size_t& cnt)
+	{
+		s = 12345; j = 54321; S::GetSegItemIndexes(i, s, j); idx = S::GetIndex(s, j); cnt = S::GetItemCount(s);
+	}
 	static void four(size_t i, std::string& out)
 	{
-		size_t s = 12345, j = 54321; S::GetSegItemIndexes(i, s, j);
-		char buf[128]; snprintf(buf, sizeof buf, "%llu %llu %llu %llu", ull(s), ull(j), ull(S::GetIndex(s, j)), ull(S::GetItemCount(s)));
+		size_t s, j, idx, cnt; vals(i, s, j, idx, cnt);
+		char buf[128]; snprintf(buf, sizeof buf, "%llu %llu %llu %llu", ull(s), ull(j), ull(idx), ull(cnt));
 		out += buf;
+	}
+	// lossless run-length form of the four values over lo..lo+n-1: a run "s j idx cnt xLEN" stands for LEN consecutive
+	// indexes with the same s and cnt and with j and idx each increasing by exactly 1
+	static void runs(size_t lo, size_t n, std::string& out)
+	{
+		size_t s0 = 0, j0 = 0, i0 = 0, c0 = 0, len = 0;
+		auto flush = [&]() { if (len) { char buf[160]; snprintf(buf, sizeof buf, "%llu %llu %llu %llu x%llu;", ull(s0), ull(j0), ull(i0), ull(c0), ull(len)); out += buf; } };
+		for (size_t t = 0; t < n; ++t)
+		{
+			size_t s, j, idx, cnt; vals(lo + t, s, j, idx, cnt);
+			if (len && s == s0 && cnt == c0 && j == j0 + len && idx == i0 + len) { ++len; continue; }
+			flush(); s0 = s; j0 = j; i0 = idx; c0 = cnt; len = 1;
+		}
+		flush();
 	}
 	static void segonly(size_t i) { size_t s = 12345, j = 54321; S::GetSegItemIndexes(i, s, j); printf("%llu %llu\n", ull(s), ull(j)); }
 	static void rev(size_t s, size_t j)
@@ -62,83 +84,211 @@ template<Fn F, size_t L> struct Idx
 };
 
 // ---------------------------------------------------------------- histories on the real container
-template<Fn F, size_t L> static void history(std::istringstream& is)
+static std::map<ull, ull> g_serial2id; static ull g_nextid = 0;   // allocation serial -> canonical segment id (first appearance)
+static const size_t NONE = ~size_t(0);
+
+template<Fn F, size_t L> struct Track
 {
 	typedef SegmentedArraySettings<F, L> S;
 	typedef SegmentedArray<Elem, TrackMM, SegmentedArrayItemTraits<Elem, TrackMM>, S> Arr;
-	g_live.clear();
-	std::string out; std::string fail;
+	Arr arr; std::vector<ull> twin;
+	std::vector<const Elem*> addr;            // address of slot i as last observed
+	std::vector<std::pair<void*, ull>> segs;  // segment base -> canonical id, as last observed
+
+	// index of the slot at address p in the segment table `tab` (old or new), or NONE
+	static size_t slot_of(const std::vector<std::pair<void*, ull>>& tab, const Elem* p)
 	{
-		Arr arr; std::vector<ull> twin; ull next = 1;
-		std::vector<const Elem*> addr;          // address of slot i as last observed
-		std::vector<std::pair<void*, ull>> segs; // segment base -> canonical id (order of first appearance)
-		std::map<ull, ull> serial2id; ull nextid = 0;
-		std::string op; size_t opno = 0;
+		for (size_t s = 0; s < tab.size(); ++s)
+		{
+			const Elem* base = static_cast<const Elem*>(tab[s].first);
+			if (p >= base && p < base + S::GetItemCount(s)) return S::GetIndex(s, size_t(p - base));
+		}
+		return NONE;
+	}
+
+	// one operation; returns the first index the operation is allowed to touch (NONE = no element at all)
+	size_t apply(const std::string& op, ull& next, std::string& fail, bool& addrReset)
+	{
+		char c = op[0]; ull n = 0, m = 0;
+		if (op.size() > 1) { n = strtoull(op.c_str() + 1, nullptr, 10); size_t k = op.find(':'); if (k != std::string::npos) m = strtoull(op.c_str() + k + 1, nullptr, 10); }
+		size_t old = twin.size();
+		switch (c)
+		{
+		case 'a': for (ull k = 0; k < n; ++k) { arr.AddBack(Elem(next)); twin.push_back(next); ++next; } return old;
+		case 'r': arr.Reserve(size_t(n)); return NONE;
+		case 's': arr.SetCount(size_t(n)); twin.resize(size_t(n), 0); return std::min(old, size_t(n));
+		case 'k': arr.Shrink(); return NONE;
+		case 'K': arr.Shrink(size_t(n)); return NONE;
+		case 'b': if (n <= old) { arr.RemoveBack(size_t(n)); twin.resize(old - size_t(n)); return old - size_t(n); } return NONE;
+		case 'c': arr.Clear(false); twin.clear(); return 0;
+		case 'C': arr.Clear(true); twin.clear(); addrReset = true; return 0;
+		case 'i': if (n <= old) { arr.Insert(size_t(n), Elem(next)); twin.insert(twin.begin() + n, next); ++next; return size_t(n); } return NONE;
+		case 'd': if (n < old) { arr.Remove(size_t(n), 1); twin.erase(twin.begin() + n); return size_t(n); } return NONE;
+		case 'n': if (arr.GetCount() < arr.GetCapacity()) { arr.AddBackNogrow(Elem(next)); twin.push_back(next); ++next; return old; } return NONE;
+		case 'I': if (n <= old) { arr.Insert(size_t(n), size_t(m), Elem(next)); twin.insert(twin.begin() + n, size_t(m), next); ++next; return size_t(n); } return NONE;
+		case 'J': if (n <= old) { std::vector<Elem> src; std::vector<ull> vs; for (ull k = 0; k < m; ++k) { src.emplace_back(next); vs.push_back(next); ++next; }
+				arr.Insert(size_t(n), src.begin(), src.end()); twin.insert(twin.begin() + n, vs.begin(), vs.end()); return size_t(n); } return NONE;
+		case 'D': if (n <= old && m <= old - n) { arr.Remove(size_t(n), size_t(m)); twin.erase(twin.begin() + n, twin.begin() + n + m); return size_t(n); } return NONE;
+		case 'F': if (n > 0) { size_t first = NONE; for (size_t i = 0; i < old; ++i) if (twin[i] % n == 0) { first = i; break; }
+				size_t rem = arr.Remove([n](const Elem& e) { return e.v % n == 0; });
+				std::vector<ull> t2; for (ull v : twin) if (v % n != 0) t2.push_back(v);
+				if (rem != old - t2.size()) fail = "filter-count"; twin.swap(t2); return first; } return NONE;
+		default: fail = "bad-op"; return NONE;
+		}
+	}
+
+	// the property on the real container (independent of the Coq model); appends "count/segCount/cap/topid"
+	void verify(std::string& out, std::string& fail, size_t firstTouch, bool addrReset, bool checkEvents)
+	{
+		const Arr& carr = arr;
+		size_t cnt = arr.GetCount();
+		if (cnt != twin.size()) fail = "count";
+		if (addrReset) addr.clear();
+		size_t keep = std::min(addr.size(), cnt);
+		auto it = arr.GetBegin(); auto cit = carr.GetBegin();
+		for (size_t i = 0; i < cnt && fail.empty(); ++i, ++it, ++cit)
+		{
+			const Elem* p = &arr[i];
+			if (i < keep && p != addr[i]) fail = "moved@" + std::to_string(i);
+			if (p->v != twin[i]) fail = "value@" + std::to_string(i);
+			if (p->self != p) fail = "relocated@" + std::to_string(i);
+			size_t s = 0, j = 0; S::GetSegItemIndexes(i, s, j);
+			if (s >= arr.mSegments.GetCount()) { fail = "seg-range@" + std::to_string(i); break; }
+			if (j >= S::GetItemCount(s) || p != arr.mSegments[s] + j) fail = "slot@" + std::to_string(i);
+			if (i > 0 && j > 0 && p != &arr[i - 1] + 1) fail = "noncontig@" + std::to_string(i);
+			// const / non-const operator[], iterators (sequential and random access) all denote the same object
+			if (&carr[i] != p) fail = "const-index@" + std::to_string(i);
+			if (&*it != p || &*cit != p) fail = "iter@" + std::to_string(i);
+			if ((i & 63) == 0 || i + 1 == cnt)
+			{
+				if (&*(arr.GetBegin() + ptrdiff_t(i)) != p || &arr.GetBegin()[ptrdiff_t(i)] != p || &*(carr.GetEnd() - ptrdiff_t(cnt - i)) != p) fail = "iter-random@" + std::to_string(i);
+				if ((it - arr.GetBegin()) != ptrdiff_t(i) || (carr.GetEnd() - cit) != ptrdiff_t(cnt - i)) fail = "iter-diff@" + std::to_string(i);
+			}
+		}
+		if (fail.empty() && (it != arr.GetEnd() || cit != carr.GetEnd())) fail = "iter-end";
+		if (fail.empty() && cnt > 0 && &arr.GetBackItem() != &arr[cnt - 1]) fail = "back-item";
+		// segments: prefix-stable, sized GetItemCount(s), capacity = sum of sizes
+		size_t sc = arr.mSegments.GetCount(); size_t capsum = 0;
+		std::vector<std::pair<void*, ull>> nsegs;
+		for (size_t s = 0; s < sc && fail.empty(); ++s)
+		{
+			void* base = arr.mSegments[s];
+			auto li = g_live.find(base);
+			if (li == g_live.end()) { fail = "seg-not-live@" + std::to_string(s); break; }
+			if (li->second.size != S::GetItemCount(s) * sizeof(Elem)) fail = "seg-size@" + std::to_string(s);
+			if (!g_serial2id.count(li->second.serial)) g_serial2id[li->second.serial] = g_nextid++;
+			ull id = g_serial2id[li->second.serial];
+			if (s < segs.size() && !addrReset && (segs[s].first != base || segs[s].second != id)) fail = "seg-replaced@" + std::to_string(s);
+			capsum += S::GetItemCount(s);
+			nsegs.push_back({base, id});
+		}
+		if (fail.empty() && capsum != arr.GetCapacity()) fail = "capacity-sum";
+		if (fail.empty() && cnt > arr.GetCapacity()) fail = "count>capacity";
+		// which slots did the operation construct / assign / destroy?  none below firstTouch
+		if (fail.empty() && checkEvents)
+			for (auto& ev : g_ev)
+			{
+				size_t idx = slot_of(nsegs, ev.second);
+				if (idx == NONE) idx = slot_of(segs, ev.second);
+				if (idx != NONE && (firstTouch == NONE || idx < firstTouch))
+				{ fail = std::string("touched-") + ev.first + "@" + std::to_string(idx); break; }
+			}
+		addr.resize(cnt);
+		for (size_t i = 0; i < cnt; ++i) addr[i] = &arr[i];
+		segs.swap(nsegs);
+		char buf[96]; snprintf(buf, sizeof buf, "%llu/%llu/%llu/%lld", ull(cnt), ull(sc), ull(arr.GetCapacity()), (sc && !segs.empty()) ? (long long)segs.back().second : -1LL);
+		out += buf;
+	}
+};
+
+static void reset_globals() { g_live.clear(); g_serial2id.clear(); g_nextid = 0; g_ev.clear(); }
+
+template<Fn F, size_t L> static void history(std::istringstream& is)
+{
+	reset_globals();
+	std::string out, fail;
+	{
+		Track<F, L> t; ull next = 1; std::string op; size_t opno = 0;
 		while (is >> op && fail.empty())
 		{
-			++opno;
-			char c = op[0]; ull n = op.size() > 1 ? strtoull(op.c_str() + 1, nullptr, 10) : 0;
-			bool addrReset = false;
-			switch (c)
-			{
-			case 'a': for (ull k = 0; k < n; ++k) { arr.AddBack(Elem(next)); twin.push_back(next); ++next; } break;
-			case 'r': arr.Reserve(size_t(n)); break;
-			case 's': { size_t old = twin.size(); arr.SetCount(size_t(n)); twin.resize(size_t(n), 0); (void)old; } break;
-			case 'k': arr.Shrink(); break;
-			case 'K': arr.Shrink(size_t(n)); break;
-			case 'b': if (n <= twin.size()) { arr.RemoveBack(size_t(n)); twin.resize(twin.size() - size_t(n)); } break;
-			case 'c': arr.Clear(false); twin.clear(); break;
-			case 'C': arr.Clear(true); twin.clear(); addrReset = true; break;
-			case 'i': if (n <= twin.size()) { arr.Insert(size_t(n), Elem(next)); twin.insert(twin.begin() + n, next); ++next; } break;
-			case 'd': if (n < twin.size()) { arr.Remove(size_t(n), 1); twin.erase(twin.begin() + n); } break;
-			case 'n': if (arr.GetCount() < arr.GetCapacity()) { arr.AddBackNogrow(Elem(next)); twin.push_back(next); ++next; } break;
-			default: fail = "bad-op";
-			}
-			// ---- the property on the real container (independent of the Coq model)
-			size_t cnt = arr.GetCount();
-			if (cnt != twin.size()) fail = "count";
-			if (addrReset) addr.clear();
-			size_t keep = std::min(addr.size(), cnt);
-			for (size_t i = 0; i < cnt && fail.empty(); ++i)
-			{
-				const Elem* p = &arr[i];
-				if (i < keep && p != addr[i]) fail = "moved@" + std::to_string(i);
-				if (p->v != twin[i]) fail = "value@" + std::to_string(i);
-				if (p->self != p) fail = "relocated@" + std::to_string(i);
-				// inside its segment's allocation
-				size_t s = 0, j = 0; S::GetSegItemIndexes(i, s, j);
-				if (s >= arr.mSegments.GetCount()) { fail = "seg-range@" + std::to_string(i); break; }
-				if (j >= S::GetItemCount(s) || p != arr.mSegments[s] + j) fail = "slot@" + std::to_string(i);
-				if (i > 0 && j > 0 && p != addr_prev(arr, i)) fail = "noncontig@" + std::to_string(i);
-			}
-			addr.resize(cnt);
-			for (size_t i = 0; i < cnt; ++i) addr[i] = &arr[i];
-			// segments: prefix-stable, sized GetItemCount(s), capacity = sum of sizes
-			size_t sc = arr.mSegments.GetCount(); size_t capsum = 0;
-			for (size_t s = 0; s < sc && fail.empty(); ++s)
-			{
-				void* base = arr.mSegments[s];
-				auto it = g_live.find(base);
-				if (it == g_live.end()) { fail = "seg-not-live@" + std::to_string(s); break; }
-				if (it->second.size != S::GetItemCount(s) * sizeof(Elem)) fail = "seg-size@" + std::to_string(s);
-				if (!serial2id.count(it->second.serial)) serial2id[it->second.serial] = nextid++;
-				ull id = serial2id[it->second.serial];
-				if (s < segs.size() && !addrReset && (segs[s].first != base || segs[s].second != id)) fail = "seg-replaced@" + std::to_string(s);
-				capsum += S::GetItemCount(s);
-			}
-			if (fail.empty() && capsum != arr.GetCapacity()) fail = "capacity-sum";
-			if (fail.empty() && cnt > arr.GetCapacity()) fail = "count>capacity";
-			segs.clear();
-			for (size_t s = 0; s < sc && fail.empty(); ++s) segs.push_back({arr.mSegments[s], serial2id[g_live[arr.mSegments[s]].serial]});
-			char buf[96]; snprintf(buf, sizeof buf, "%llu/%llu/%llu/%lld ", ull(cnt), ull(sc), ull(arr.GetCapacity()), sc ? (long long)segs.back().second : -1LL);
-			out += buf;
+			++opno; bool addrReset = false; g_ev.clear();
+			size_t ft = t.apply(op, next, fail, addrReset);
+			if (fail.empty()) t.verify(out, fail, ft, addrReset, true);
+			out += ' ';
 			if (!fail.empty()) { out += "FAIL:" + fail + "@op" + std::to_string(opno); break; }
 		}
 	}
 	if (fail.empty() && !g_live.empty()) out += "FAIL:leak";
 	puts(out.c_str());
 }
-template<class Arr> static const Elem* addr_prev(Arr& arr, size_t i) { return &arr[i - 1] + 1; }
+
+// two arrays: A.<op> / B.<op> act on one of them; mAB: B = std::move(A); xAB: A.Swap(B); cAB: B = A (copy assignment);
+// kAB: B = Arr(A, false) (copy keeping the capacity); MAB: move construction (Arr tmp(std::move(A)); B.Swap(tmp))
+template<Fn F, size_t L> static void history2(std::istringstream& is)
+{
+	typedef Track<F, L> T; typedef typename T::Arr Arr;
+	reset_globals();
+	std::string out, fail;
+	{
+		T ta, tb; ull next = 1; std::string op; size_t opno = 0;
+		while (is >> op && fail.empty())
+		{
+			++opno; g_ev.clear();
+			bool resetA = false, resetB = false; size_t ftA = NONE, ftB = NONE; bool events = true;
+			if (op.size() > 2 && op[1] == '.')
+			{
+				T& t = (op[0] == 'A') ? ta : tb;
+				size_t ft = t.apply(op.substr(2), next, fail, (op[0] == 'A') ? resetA : resetB);
+				((op[0] == 'A') ? ftA : ftB) = ft;
+			}
+			else if (op.size() == 3 && (op[0] == 'm' || op[0] == 'M' || op[0] == 'x' || op[0] == 'c' || op[0] == 'k'))
+			{
+				bool ab = (op[1] == 'A');
+				T& src = ab ? ta : tb; T& dst = ab ? tb : ta;
+				std::vector<const Elem*> srcAddr = src.addr; auto srcSegs = src.segs; ull serialBefore = g_serial;
+				events = false;
+				switch (op[0])
+				{
+				case 'm': dst.arr = std::move(src.arr); break;
+				case 'M': { Arr tmp(std::move(src.arr)); dst.arr.Swap(tmp); } break;
+				case 'x': src.arr.Swap(dst.arr); break;
+				case 'c': dst.arr = src.arr; break;
+				case 'k': dst.arr = Arr(src.arr, false); break;
+				}
+				if (op[0] == 'm' || op[0] == 'M')
+				{	// pointer steal: the destination's elements ARE the source's former elements
+					dst.twin = src.twin; src.twin.clear();
+					dst.addr = srcAddr; dst.segs = srcSegs; src.addr.clear(); src.segs.clear();
+					if (src.arr.GetCount() != 0 || src.arr.mSegments.GetCount() != 0) fail = "moved-from-not-empty";
+				}
+				else if (op[0] == 'x')
+				{
+					src.twin.swap(dst.twin); src.addr.swap(dst.addr); src.segs.swap(dst.segs);
+				}
+				else
+				{	// copy: source untouched (verify keeps its addr/segs), destination entirely in fresh allocations
+					dst.twin = src.twin; dst.addr.clear(); dst.segs.clear();
+					(ab ? resetB : resetA) = true;
+					for (size_t s2 = 0; s2 < dst.arr.mSegments.GetCount() && fail.empty(); ++s2)
+					{
+						auto li = g_live.find(dst.arr.mSegments[s2]);
+						if (li == g_live.end() || li->second.serial <= serialBefore) fail = "copy-shares-segment@" + std::to_string(s2);
+					}
+					for (size_t i = 0; i < dst.arr.GetCount() && fail.empty(); ++i)
+						if (T::slot_of(srcSegs, &dst.arr[i]) != NONE) fail = "copy-aliases@" + std::to_string(i);
+				}
+			}
+			else fail = "bad-op";
+			if (fail.empty()) ta.verify(out, fail, ftA, resetA, events);
+			out += '|';
+			if (fail.empty()) tb.verify(out, fail, ftB, resetB, events);
+			out += ' ';
+			if (!fail.empty()) { out += "FAIL:" + fail + "@op" + std::to_string(opno); break; }
+		}
+	}
+	if (fail.empty() && !g_live.empty()) out += "FAIL:leak";
+	puts(out.c_str());
+}
 
 // ---------------------------------------------------------------- dispatch on the template parameter L
 template<Fn F, size_t L> struct Disp
@@ -152,6 +302,13 @@ template<Fn F> struct Disp<F, 0>
 {
 	template<class Fun> static void go(size_t l, Fun&& f) { if (l == 0) f(Idx<F, 0>()); else puts("?L"); }
 };
+template<Fn F> static void hist2_dispatch(size_t l, std::istringstream& is)
+{
+	switch (l) {
+	case 0: history2<F, 0>(is); break; case 1: history2<F, 1>(is); break; case 2: history2<F, 2>(is); break;
+	case 3: history2<F, 3>(is); break; case 5: history2<F, 5>(is); break;
+	default: puts("?L"); }
+}
 template<Fn F> static void hist_dispatch(size_t l, std::istringstream& is)
 {
 	switch (l) {
@@ -180,7 +337,7 @@ int main()
 		else if (cmd == "sqr" || cmd == "cnr")
 		{
 			ull l, lo, n; is >> l >> lo >> n; std::string out;
-			auto f = [&](auto x) { for (ull i = lo; i < lo + n; ++i) { decltype(x)::four(size_t(i), out); out += ';'; } };
+			auto f = [&](auto x) { decltype(x)::runs(size_t(lo), size_t(n), out); };
 			if (cmd == "sqr") Disp<Fn::sqrt, 63>::go(l, f); else Disp<Fn::cnst, 63>::go(l, f);
 			puts(out.c_str());
 		}
@@ -189,6 +346,11 @@ int main()
 			ull l, s, j; is >> l >> s >> j;
 			auto f = [&](auto x) { decltype(x)::rev(size_t(s), size_t(j)); };
 			if (cmd == "sqx") Disp<Fn::sqrt, 63>::go(l, f); else Disp<Fn::cnst, 63>::go(l, f);
+		}
+		else if (cmd == "hist2")
+		{
+			std::string f; ull l; is >> f >> l;
+			if (f == "sq") hist2_dispatch<Fn::sqrt>(l, is); else hist2_dispatch<Fn::cnst>(l, is);
 		}
 		else if (cmd == "hist")
 		{
